@@ -1,13 +1,13 @@
-(* C14 phase 2: agreement of the two reader models on modules without blackbox instances (part B1) *)
+(* C14 phase 2: agreement of the two reader models on the documented subset (part B1) *)
 From stdpp Require Import strings gmap sets pretty.
 From CG Require Import Model.FastVerilog Proofs.FastVerilogProofs Gen.Gen_fastv.
-From CG Require Import Proofs.FvA0 Proofs.FvA1 Proofs.FvA2 Proofs.FvA3 Proofs.FvA4 Proofs.FvA5 Proofs.FvA6 Proofs.FvA7 Proofs.FvA8 Proofs.FvA9.
+From CG Require Import Proofs.FvA0 Proofs.FvA1 Proofs.FvA2 Proofs.FvP1 Proofs.FvE1 Proofs.FvE2 Proofs.FvE3 Proofs.FvE4 Proofs.FvA3 Proofs.FvE5 Proofs.FvE6 Proofs.FvE7 Proofs.FvA4 Proofs.FvA5 Proofs.FvA6 Proofs.FvA7 Proofs.FvA8 Proofs.FvA9.
 Open Scope string_scope.
 
 (* ---- the fast reader's scans on good items, as exact lists *)
 Section fastscan.
-  Variables (t0 t1 : string).
-  Notation nm := (nm t0 t1). Notation gate_view := (gate_view t0 t1).
+  Variables (t0 t1 : string) (bbs : list bbdef).
+  Notation nm := (nm t0 t1). Notation gate_view := (gate_view t0 t1). Notation views := (views t0 t1 bbs).
 
   Lemma fast_gate_opd_nm o : const_ok o = true → (∀ s, o = ONet s → is_ident s = true) → fast_gate_opd t0 t1 o = nm o.
   Proof.
@@ -40,24 +40,69 @@ Section fastscan.
     | IGate t _ ops => ∃ o ins, ops = ONet o :: ins ∧ t ∈ primitive_gates ∧ forallb const_ok ins = true ∧ is_ident o = true ∧
                         ∀ s, ONet s ∈ ins → is_ident s = true
     | IAssign l r => const_ok r = true ∧ ∀ s, r = ONet s → is_ident s = true
-    | IInst _ _ _ => False
+    | IInst bb inst conns => ∃ d, find_bb_first bbs bb = Some d ∧ bb_in d ## bb_out d ∧
+                        ∀ p o, (p, o) ∈ conns → (p ∈ bb_in d ∨ p ∈ bb_out d) ∧
+                          ∀ o', o = Some o' → const_ok o' = true ∧ ∀ s, o' = ONet s → is_ident s = true
     | _ => True end.
+
+  Lemma fast_pin_opd_nm o : const_ok o = true → (∀ s, o = ONet s → is_ident s = true) → fast_pin_opd t0 t1 o = nm o.
+  Proof.
+    intros Hc Hi. destruct o as [s|s]; [apply ident_pin_opd; auto|]. simpl in Hc. unfold fast_pin_opd. cbn [opd_text FvA3.nm].
+    apply orb_true_iff in Hc as [->%bool_decide_eq_true| ->%bool_decide_eq_true]; vm_compute; done.
+  Qed.
+  Definition cadd (d : bbdef) (c : string * option opd) : list (gtype * string) :=
+    match c.2 with Some o => if bool_decide (c.1 ∈ bb_in d) then [] else [(Buf, nm o)] | None => [] end.
+  Definition cedge (d : bbdef) (inst : string) (c : string * option opd) : list (string * string) :=
+    match c.2 with Some o => if bool_decide (c.1 ∈ bb_in d) then [(nm o, pin inst c.1)] else [(pin inst c.1, nm o)] | None => [] end.
+  Definition iadd (it : item) : list (gtype * string) :=
+    match it with IInst bb inst conns => match find_bb_first bbs bb with
+      | Some d => ((λ p, (BbIn, pin inst p)) <$> elements (bb_in d)) ++ ((λ p, (BbOut, pin inst p)) <$> elements (bb_out d)) ++ (conns ≫= cadd d)
+      | None => [] end | _ => [] end.
+  Definition iedge (it : item) : list (string * string) :=
+    match it with IInst bb inst conns => match find_bb_first bbs bb with Some d => conns ≫= cedge d inst | None => [] end | _ => [] end.
+  Definition ibbs (it : item) : list (string * bbdef) :=
+    match it with IInst bb inst conns => match find_bb_first bbs bb with Some d => [(inst, d)] | None => [] end | _ => [] end.
+
+  Lemma pins_fold_good d inst conns : ∀ s,
+    (∀ p o, (p, o) ∈ conns → (p ∈ bb_in d ∨ p ∈ bb_out d) ∧ ∀ o', o = Some o' → const_ok o' = true ∧ ∀ s, o' = ONet s → is_ident s = true) →
+    foldl (λ (st : res scan) (c : string * option opd),
+       match st, c.2 with
+       | Ok s, Some o =>
+           let net := fast_pin_opd t0 t1 o in
+           if bool_decide (c.1 ∈ bb_in d) then
+             Ok {| s_adds := s_adds s; s_edges := s_edges s ++ [(net, pin inst c.1)]; s_bbs := s_bbs s |}
+           else if bool_decide (c.1 ∈ bb_out d) then
+             Ok {| s_adds := s_adds s ++ [(Buf, net)]; s_edges := s_edges s ++ [(pin inst c.1, net)]; s_bbs := s_bbs s |}
+           else Raise ValueError
+       | st, _ => st end) (Ok s) conns
+    = Ok {| s_adds := s_adds s ++ (conns ≫= cadd d); s_edges := s_edges s ++ (conns ≫= cedge d inst); s_bbs := s_bbs s |}.
+  Proof.
+    induction conns as [|[p o] conns IH]; intros s Hg; cbn [foldl].
+    - rewrite !app_nil_r. by destruct s.
+    - destruct (Hg p o) as [Hp Ho]; [by left|]. assert (Hg' : ∀ p' o', (p', o') ∈ conns → (p' ∈ bb_in d ∨ p' ∈ bb_out d) ∧ ∀ o'', o' = Some o'' → const_ok o'' = true ∧ ∀ s, o'' = ONet s → is_ident s = true) by (intros; apply Hg; by right).
+      rewrite !bind_cons. unfold cadd at 1, cedge at 1. cbn [fst snd]. destruct o as [o|].
+      + destruct (Ho o eq_refl) as [Hc Hi]. rewrite (fast_pin_opd_nm o Hc Hi). case_bool_decide as Hpi.
+        * rewrite IH by done. cbn [s_adds s_edges s_bbs]. by rewrite app_nil_l, <- app_assoc.
+        * rewrite bool_decide_eq_true_2 by (destruct Hp; done). rewrite IH by done. cbn [s_adds s_edges s_bbs]. by rewrite <- !app_assoc.
+      + rewrite IH by done. by rewrite !app_nil_l.
+  Qed.
 
   Lemma parity_table t : t ∈ primitive_gates → bool_decide (parity_name t ∈ fast_parity) = is_parity t.
   Proof. intros H. unfold primitive_gates in H. repeat (apply elem_of_cons in H as [->|H]); try (by apply elem_of_nil in H); vm_compute; done. Qed.
 
-  Lemma fast_inst_good bbs s it : fgood it →
-    fast_inst t0 t1 bbs s it = Ok {| s_adds := s_adds s ++ gadd it; s_edges := s_edges s ++ gedge it; s_bbs := s_bbs s |}.
+  Lemma fast_inst_good s it : fgood it →
+    fast_inst t0 t1 bbs s it = Ok {| s_adds := s_adds s ++ (gadd it ++ iadd it); s_edges := s_edges s ++ (gedge it ++ iedge it); s_bbs := s_bbs s ++ ibbs it |}.
   Proof.
-    destruct it as [ns|ns|ns|t inst ops|l r|bb inst conns]; cbn [fgood fast_inst gadd gedge]; try (intros _; rewrite !app_nil_r; by destruct s); try done.
-    intros (o & ins & -> & Ht & Hc & Hio & Hnets).
-    assert (Hops : fast_gate_opd t0 t1 <$> (ONet o :: ins) = o :: (nm <$> ins)).
-    { cbn [fmap list_fmap]. f_equal; [by apply ident_gate_opd|]. apply list_fmap_ext. intros i x Hx.
-      apply fast_gate_opd_nm.
-      - rewrite forallb_forall in Hc. apply Hc, elem_of_list_In. by eapply elem_of_list_lookup_2.
-      - intros s' ->. apply Hnets. by eapply elem_of_list_lookup_2. }
-    rewrite Hops. rewrite (parity_table t Ht). cbn [FvA3.gate_view]. unfold FvA3.norm.
-    destruct (if is_parity t then _ else _) as [t' ins']. done.
+    destruct it as [ns|ns|ns|t inst ops|l r|bb inst conns]; cbn [fgood fast_inst gadd gedge iadd iedge ibbs]; try (intros _; rewrite !app_nil_r; by destruct s).
+    - intros (o & ins & -> & Ht & Hc & Hio & Hnets).
+      assert (Hops : fast_gate_opd t0 t1 <$> (ONet o :: ins) = o :: (nm <$> ins)).
+      { cbn [fmap list_fmap]. f_equal; [by apply ident_gate_opd|]. apply list_fmap_ext. intros i x Hx.
+        apply fast_gate_opd_nm.
+        - rewrite forallb_forall in Hc. apply Hc, elem_of_list_In. by eapply elem_of_list_lookup_2.
+        - intros s' ->. apply Hnets. by eapply elem_of_list_lookup_2. }
+      rewrite Hops. rewrite (parity_table t Ht). cbn [FvA3.gate_view]. unfold FvA3.norm.
+      destruct (if is_parity t then _ else _) as [t' ins']. by rewrite !app_nil_r.
+    - intros (d & -> & Hdisj & Hg). rewrite (pins_fold_good d inst conns) by done. cbn [rbind s_adds s_edges s_bbs]. by rewrite !app_nil_l, <- !app_assoc.
   Qed.
   Lemma fast_assign_good s it : fgood it →
     fast_assign t0 t1 s it = {| s_adds := s_adds s ++ aadd it; s_edges := s_edges s ++ aedge it; s_bbs := s_bbs s |}.
@@ -66,14 +111,16 @@ Section fastscan.
     intros [Hc Hi]. cbn [FvA3.gate_view fmap list_fmap]. by rewrite fast_assign_opd_nm.
   Qed.
 
-  Lemma fast_scan_good bbs items : ∀ s, (∀ it, it ∈ items → fgood it) →
+  Definition gadd' (it : item) := (gadd it ++ iadd it)%list.
+  Definition gedge' (it : item) := (gedge it ++ iedge it)%list.
+  Lemma fast_scan_good items : ∀ s, (∀ it, it ∈ items → fgood it) →
     foldl (λ st it, rbind st (λ s, fast_inst t0 t1 bbs s it)) (Ok s) items =
-      Ok {| s_adds := s_adds s ++ (items ≫= gadd); s_edges := s_edges s ++ (items ≫= gedge); s_bbs := s_bbs s |}.
+      Ok {| s_adds := s_adds s ++ (items ≫= gadd'); s_edges := s_edges s ++ (items ≫= gedge'); s_bbs := s_bbs s ++ (items ≫= ibbs) |}.
   Proof.
     induction items as [|it items IH]; intros s Hg; cbn [foldl rbind].
     - rewrite !app_nil_r. by destruct s.
     - rewrite fast_inst_good by (apply Hg; by left). rewrite IH by (intros; apply Hg; by right). cbn [s_adds s_edges s_bbs].
-      by rewrite !bind_cons, !app_assoc.
+      unfold gadd', gedge'. by rewrite !bind_cons, !app_assoc.
   Qed.
   Lemma fast_assigns_good items : ∀ s, (∀ it, it ∈ items → fgood it) →
     foldl (fast_assign t0 t1) s items =
@@ -85,21 +132,84 @@ Section fastscan.
       by rewrite !bind_cons, !app_assoc.
   Qed.
 
-  (* membership in the accumulated lists = being the view of some statement *)
-  Lemma adds_elem items t o : (t, o) ∈ ((items ≫= gadd) ++ (items ≫= aadd))%list ↔ ∃ it fis, it ∈ items ∧ gate_view it = Some (o, (t, fis)).
+  (* membership in the accumulated lists = being a view of some statement *)
+  Lemma views_gate it e : match it with IInst _ _ _ => False | _ => True end → e ∈ views it ↔ gate_view it = Some e.
+  Proof. intros Hn. destruct it; try done; cbn [FvA3.views]; destruct (FvA3.gate_view t0 t1 _) as [e'|]; split; try done; try (intros ->%elem_of_list_singleton; done); try (intros [= ->]; by left); intros H; by apply elem_of_nil in H. Qed.
+  Lemma inst_adds bb inst conns d t o : find_bb_first bbs bb = Some d → bb_in d ## bb_out d → (∀ p o, (p, o) ∈ conns → p ∈ bb_in d ∨ p ∈ bb_out d) →
+    (t, o) ∈ iadd (IInst bb inst conns) ↔ ∃ fis, (o, (t, fis)) ∈ views (IInst bb inst conns).
   Proof.
-    rewrite elem_of_app, !elem_of_list_bind. split.
-    - intros [(it & Hin & Hit)|(it & Hin & Hit)]; exists it; destruct it; cbn [gadd aadd] in Hin; try (by apply elem_of_nil in Hin);
-        destruct (FvA3.gate_view t0 t1 _) as [[o' [t' fis]]|]; try (by apply elem_of_nil in Hin); apply elem_of_list_singleton in Hin as [= -> ->]; eauto.
-    - intros (it & fis & Hit & Hv). destruct it; try done; [left|right]; eexists; (split; [|exact Hit]); cbn [gadd aadd]; rewrite Hv; by left.
+    intros Hf Hdisj Hp. cbn [iadd FvA3.views]. rewrite Hf. unfold FvA3.inst_views. rewrite !elem_of_app, !elem_of_list_fmap. split.
+    - intros [(p & [= -> ->] & Hpe%elem_of_elements)|[(p & [= -> ->] & Hpe%elem_of_elements)|Hc]].
+      + eexists. rewrite elem_of_app. left. apply elem_of_list_fmap. exists (p, BbIn). split; [done|]. apply pin_list_elem. auto.
+      + eexists. rewrite elem_of_app. left. apply elem_of_list_fmap. exists (p, BbOut). split; [done|]. apply pin_list_elem. auto.
+      + apply elem_of_list_bind in Hc as ([p oo] & Hc & Hin). unfold cadd in Hc. cbn [fst snd] in Hc. destruct oo as [o'|]; [|by apply elem_of_nil in Hc].
+        case_bool_decide as Hpi; [by apply elem_of_nil in Hc|]. apply elem_of_list_singleton in Hc as [= -> ->].
+        eexists. rewrite elem_of_app. right. apply elem_of_list_fmap. exists (p, nm o'). split; [done|]. apply elem_of_list_filter. split; [done|]. apply conn_dict_elem. eauto.
+    - intros (fis & [Hv|Hv]%elem_of_app).
+      + apply elem_of_list_fmap in Hv as ([p t'] & [= -> -> ->] & [[Hpe ->]|[Hpe ->]]%pin_list_elem).
+        * left. exists p. split; [done|by apply elem_of_elements].
+        * right. left. exists p. split; [done|by apply elem_of_elements].
+      + apply elem_of_list_fmap in Hv as ([p n] & [= -> -> ->] & [Hpi Hin]%elem_of_list_filter). cbn [fst snd] in *. apply conn_dict_elem in Hin as (o' & Hin & ->).
+        right. right. apply elem_of_list_bind. exists (p, Some o'). split; [|done]. unfold cadd. cbn [fst snd]. rewrite bool_decide_eq_false_2 by done. by left.
   Qed.
-  Lemma edges_elem items u v : (u, v) ∈ ((items ≫= gedge) ++ (items ≫= aedge))%list ↔ ∃ it t fis, it ∈ items ∧ gate_view it = Some (v, (t, fis)) ∧ u ∈ fis.
+  Lemma inst_edges bb inst conns d u v : find_bb_first bbs bb = Some d → bb_in d ## bb_out d → (∀ p o, (p, o) ∈ conns → p ∈ bb_in d ∨ p ∈ bb_out d) →
+    (u, v) ∈ iedge (IInst bb inst conns) ↔ ∃ t fis, (v, (t, fis)) ∈ views (IInst bb inst conns) ∧ u ∈ fis.
   Proof.
-    rewrite elem_of_app, !elem_of_list_bind. split.
-    - intros [(it & Hin & Hit)|(it & Hin & Hit)]; exists it; destruct it; cbn [gedge aedge] in Hin; try (by apply elem_of_nil in Hin);
-        destruct (FvA3.gate_view t0 t1 _) as [[o' [t' fis]]|]; try (by apply elem_of_nil in Hin);
-        apply elem_of_list_fmap in Hin as (i & [= -> ->] & Hi); eauto 6.
-    - intros (it & t & fis & Hit & Hv & Hu). destruct it; try done; [left|right]; eexists; (split; [|exact Hit]); cbn [gedge aedge]; rewrite Hv;
-        apply elem_of_list_fmap; eauto.
+    intros Hf Hdisj Hp. cbn [iedge FvA3.views]. rewrite Hf. unfold FvA3.inst_views. rewrite elem_of_list_bind. split.
+    - intros ([p oo] & Hc & Hin). unfold cedge in Hc. cbn [fst snd] in Hc. destruct oo as [o'|]; [|by apply elem_of_nil in Hc].
+      case_bool_decide as Hpi; apply elem_of_list_singleton in Hc as [= -> ->].
+      + exists BbIn. eexists. split; [apply elem_of_app; left; apply elem_of_list_fmap; exists (p, BbIn); split; [done|apply pin_list_elem; auto]|].
+        cbn [fst]. apply elem_of_list_fmap. exists (p, nm o'). split; [done|]. apply elem_of_list_filter. split; [done|]. apply conn_dict_elem. eauto.
+      + exists Buf, [pin inst p]. split; [|by left]. apply elem_of_app. right. apply elem_of_list_fmap. exists (p, nm o'). split; [done|].
+        apply elem_of_list_filter. split; [done|]. apply conn_dict_elem. eauto.
+    - intros (t & fis & [Hv|Hv]%elem_of_app & Hu).
+      + apply elem_of_list_fmap in Hv as ([p t'] & [= -> -> ->] & _). cbn [fst] in Hu.
+        apply elem_of_list_fmap in Hu as ([p' n] & -> & [[Heq Hpi] Hin]%elem_of_list_filter). cbn [fst snd] in *. subst p'.
+        apply conn_dict_elem in Hin as (o' & Hin & ->). exists (p, Some o'). split; [|done]. unfold cedge. cbn [fst snd]. rewrite bool_decide_eq_true_2 by done. by left.
+      + apply elem_of_list_fmap in Hv as ([p n] & [= -> -> ->] & [Hpi Hin]%elem_of_list_filter). cbn [fst snd] in *. apply elem_of_list_singleton in Hu as ->.
+        apply conn_dict_elem in Hin as (o' & Hin & ->). exists (p, Some o'). split; [|done]. unfold cedge. cbn [fst snd]. rewrite bool_decide_eq_false_2 by done. by left.
+  Qed.
+
+  Lemma adds_elem items t o : (∀ it, it ∈ items → fgood it) →
+    (t, o) ∈ ((items ≫= gadd') ++ (items ≫= aadd))%list ↔ ∃ it fis, it ∈ items ∧ (o, (t, fis)) ∈ views it.
+  Proof.
+    intros Hg. rewrite elem_of_app, !elem_of_list_bind. split.
+    - intros [(it & Hin & Hit)|(it & Hin & Hit)].
+      + unfold gadd' in Hin. apply elem_of_app in Hin as [Hin|Hin].
+        * exists it. destruct it; cbn [gadd] in Hin; try (by apply elem_of_nil in Hin).
+          destruct (FvA3.gate_view t0 t1 _) as [[o' [t' fis]]|] eqn:E; [|by apply elem_of_nil in Hin]. apply elem_of_list_singleton in Hin as [= -> ->].
+          exists fis. split; [done|]. by apply views_gate.
+        * destruct it; cbn [iadd] in Hin; try (by apply elem_of_nil in Hin). destruct (Hg _ Hit) as (d & Hf & Hdisj & Hc).
+          apply (inst_adds _ _ _ d) in Hin as [fis Hv]; [eauto|done|done|intros p' o'' Hx; by destruct (Hc p' o'' Hx)].
+      + exists it. destruct it; cbn [aadd] in Hin; try (by apply elem_of_nil in Hin).
+        destruct (FvA3.gate_view t0 t1 _) as [[o' [t' fis]]|] eqn:E; [|by apply elem_of_nil in Hin]. apply elem_of_list_singleton in Hin as [= -> ->].
+        exists fis. split; [done|]. by apply views_gate.
+    - intros (it & fis & Hit & Hv). destruct it as [ns|ns|ns|t' inst ops|l r|bb inst conns].
+      1-3: cbn [FvA3.views FvA3.gate_view] in Hv; by apply elem_of_nil in Hv.
+      + left. exists (IGate t' inst ops). split; [|done]. apply views_gate in Hv; [|done]. unfold gadd'. apply elem_of_app. left. cbn [gadd]. rewrite Hv. by left.
+      + right. exists (IAssign l r). split; [|done]. apply views_gate in Hv; [|done]. cbn [aadd]. rewrite Hv. by left.
+      + left. exists (IInst bb inst conns). split; [|done]. unfold gadd'. apply elem_of_app. right. destruct (Hg _ Hit) as (d & Hf & Hdisj & Hc).
+        apply (inst_adds _ _ _ d); [done|done|intros p' o'' Hx; by destruct (Hc p' o'' Hx)|eauto].
+  Qed.
+  Lemma edges_elem items u v : (∀ it, it ∈ items → fgood it) →
+    (u, v) ∈ ((items ≫= gedge') ++ (items ≫= aedge))%list ↔ ∃ it t fis, it ∈ items ∧ (v, (t, fis)) ∈ views it ∧ u ∈ fis.
+  Proof.
+    intros Hg. rewrite elem_of_app, !elem_of_list_bind. split.
+    - intros [(it & Hin & Hit)|(it & Hin & Hit)].
+      + unfold gedge' in Hin. apply elem_of_app in Hin as [Hin|Hin].
+        * exists it. destruct it; cbn [gedge] in Hin; try (by apply elem_of_nil in Hin).
+          destruct (FvA3.gate_view t0 t1 _) as [[o' [t' fis]]|] eqn:E; [|by apply elem_of_nil in Hin]. apply elem_of_list_fmap in Hin as (i & [= -> ->] & Hi).
+          exists t', fis. split; [done|]. split; [by apply views_gate|done].
+        * destruct it; cbn [iedge] in Hin; try (by apply elem_of_nil in Hin). destruct (Hg _ Hit) as (d & Hf & Hdisj & Hc).
+          apply (inst_edges _ _ _ d) in Hin as (t' & fis & Hv & Hu); [eauto 7|done|done|intros p' o'' Hx; by destruct (Hc p' o'' Hx)].
+      + exists it. destruct it; cbn [aedge] in Hin; try (by apply elem_of_nil in Hin).
+        destruct (FvA3.gate_view t0 t1 _) as [[o' [t' fis]]|] eqn:E; [|by apply elem_of_nil in Hin]. apply elem_of_list_fmap in Hin as (i & [= -> ->] & Hi).
+        exists t', fis. split; [done|]. split; [by apply views_gate|done].
+    - intros (it & t & fis & Hit & Hv & Hu). destruct it as [ns|ns|ns|t' inst ops|l r|bb inst conns].
+      1-3: cbn [FvA3.views FvA3.gate_view] in Hv; by apply elem_of_nil in Hv.
+      + left. exists (IGate t' inst ops). split; [|done]. apply views_gate in Hv; [|done]. unfold gedge'. apply elem_of_app. left. cbn [gedge]. rewrite Hv. apply elem_of_list_fmap. eauto.
+      + right. exists (IAssign l r). split; [|done]. apply views_gate in Hv; [|done]. cbn [aedge]. rewrite Hv. apply elem_of_list_fmap. eauto.
+      + left. exists (IInst bb inst conns). split; [|done]. unfold gedge'. apply elem_of_app. right. destruct (Hg _ Hit) as (d & Hf & Hdisj & Hc).
+        apply (inst_edges _ _ _ d); [done|done|intros p' o'' Hx; by destruct (Hc p' o'' Hx)|eauto].
   Qed.
 End fastscan.
